@@ -251,6 +251,37 @@ func dischargeIndexSSA(p *Prog, in ssa.Instruction) (string, bool) {
 			return "a dominating test idx < len(S) on the same slice, an index that starts at a non-negative constant and only grows, and no write of the slice between test and use", true
 		}
 	}
+	// F: S[i] with i := slices.Index*(S, …) (or IndexFunc) on the same slice, on the side where i is not negative: the
+	//    library returns -1 or a valid index of S
+	if ic, ok := stripNum(idx).(*ssa.Call); ok && ic.Common().StaticCallee() != nil && len(ic.Common().Args) >= 1 {
+		name := ic.Common().StaticCallee().String()
+		if o := ic.Common().StaticCallee().Origin(); o != nil {
+			name = o.String()
+		}
+		switch name {
+		case "slices.IndexFunc", "slices.Index":
+			if sameSliceAt(x, ic.Common().Args[0], in) {
+				for _, g := range guardsOf(in.Block()) {
+					c, pol := flattenCond(g.Cond, g.Pol)
+					b, ok := c.(*ssa.BinOp)
+					if !ok || stripNum(b.X) != ssa.Value(ic) {
+						continue
+					}
+					k, isK := constInt(b.Y)
+					if !isK {
+						continue
+					}
+					op := b.Op
+					if !pol {
+						op = negateOp(op)
+					}
+					if (op == token.GEQ && k == 0) || (op == token.GTR && k == -1) || (op == token.NEQ && k == -1) {
+						return name + " returns -1 or a valid index of the slice it searched; the use is on the non-negative side and indexes the same slice", true
+					}
+				}
+			}
+		}
+	}
 	// E: a fixed-size table indexed under a dominating call of a range predicate on the index
 	//    (`if !style.valid() { return }; table[style]` with valid = `s >= 0 && int(s) < len(table)`)
 	{
